@@ -202,6 +202,10 @@ def run_native(exe, inputs=None, seed=None, d=None, timeout=20):
     rc, o, _, _ = sh([exe], timeout=timeout, env=env)
     return rc, o
 
+def sig(out):
+    """the part of a native run's output that is compared between builds (stderr logging of the real code is not)"""
+    return [l for l in out.splitlines() if l.startswith(('OBS ', 'CHECK-FAILED', 'ASSUME-FAILED'))]
+
 def validate(run, ob, v, d):
     """translation validation: same harness, same concrete vectors, generated C vs g++ build of the real code"""
     res = dict(vectors=0, compared=0, skipped=0, disagreements=[], error=None)
@@ -218,7 +222,7 @@ def validate(run, ob, v, d):
         if rl:
             rc2, out2 = run_native(rl, seed=seed)
             res['compared'] += 1
-            if (rc1, out1) != (rc2, out2):
+            if (rc1, sig(out1)) != (rc2, sig(out2)):
                 res['disagreements'].append(dict(seed=seed, translated=[rc1, out1[-600:]], real=[rc2, out2[-600:]]))
         else:
             res['compared'] += 1
@@ -244,8 +248,13 @@ def run_query(run, ob, v, prep, witness, extra=()):
                 variables=int(mm.group(1)) if mm else None, clauses=int(mm.group(2)) if mm else None, log=outf, cmd=' '.join(cmd))
 
 def load_findings():
-    f = os.path.join(VERIF, 'known_findings.json')
-    return json.load(open(f))['findings'] if os.path.exists(f) else []
+    """known_findings.txt -> list of dicts for the 'known:' lines (fixed: lines suppress nothing)"""
+    f = os.path.join(VERIF, 'known_findings.txt'); out = []
+    if not os.path.exists(f): return out
+    for line in open(f):
+        m = re.match(r'known:\s+property=(\S+)\s+id=(\S+)\s+obligation=(\S+)\s+::\s+(.*)$', line.strip())
+        if m: out.append(dict(property=m.group(1), id=m.group(2), obligation=m.group(3), what=m.group(4), status='known'))
+    return out
 
 def process(run, ob, v, findings):
     """one obligation variant: translate, validate, proof (+exclusions), witness; returns result record"""
